@@ -111,6 +111,12 @@ def run(P, R, tier):
     _pbs.check_block_sums(P, R, "kmeans:m_step")
     from ..engines import traps as _traps
     _traps.check(P, R, ['gmm', 'kmeans', 'utils', 'factor_analysis', 'ivector'], scope='(utils:|gmm:(e_step|m_step|GMMMachine\\.fit)|kmeans:(e_step|m_step|accumulate_indices_means_vars|reduce_indices_means_vars|KMeansMachine\\.(fit|get_variances_and_weights_for_each_cluster))|factor_analysis:(FactorAnalysisBase\\.(initialize|fit_using_array|compute_latent_x|update_y|update_z|_prepare_dask_input)|ISVMachine\\.fit|JFAMachine\\.fit|reduce_iadd|check_dask_input_samples_per_class)|ivector:IVectorMachine\\.fit)')
+    from ..engines import proto as _pst
+    _pst.check_standins(P, R, 'gmm:GMMMachine.fit')
+    _pst.check_standins(P, R, 'ivector:IVectorMachine.fit')
+    _pst.check_standins(P, R, 'kmeans:KMeansMachine.fit')
+    from ..engines import proto as _prs
+    _prs.check_reduction_siblings(P, R, ['gmm', 'kmeans', 'utils'])
 
 
 EXPLANATION += ' (COVER.tree) tree-shaped reductions over the blocks (rounds that rebuild the list, window recursion, stride doubling) add every block exactly once for every number of blocks: affine tiling of the index runs after a parity split.'
